@@ -36,12 +36,62 @@ type LMCase struct {
 	Keys      []string   `json:"keys"`
 	MaxTs     uint64     `json:"max_ts"`
 	Actions   []LMAction `json:"actions"`
+	Deep      bool       `json:"deep,omitempty"` // many small flushes: two-digit table indices, long-lived levels
 }
 
 var lmKeys = []string{"a", "a!", "a ", "a@", "a@1", "a@1@2", "aa", "ab", "b", "\x00", "zz~", "m", "n"}
 
+// genLMDeep: 30-70 tiny flushes over a wide key space with disjoint ranges, so
+// that a level accumulates more than ten tables (two-digit indices, file-name
+// order differs from creation order) and handles are rebuilt in between.
+func genLMDeep(seed uint64, r *simrt.SplitMix) *LMCase {
+	c := &LMCase{Seed: seed, Deep: true, L0: []int{1, 2}[r.Intn(2)], Ratio: []int{3, 10}[r.Intn(2)], Block: []int{1, 64, 4096}[r.Intn(3)]}
+	nk := 14 + r.Intn(12)
+	for i := 0; i < nk; i++ {
+		c.Keys = append(c.Keys, fmt.Sprintf("k%02d", i))
+	}
+	c.MaxTs = uint64(4 + r.Intn(5))
+	c.Watermark = uint64(r.Intn(int(c.MaxTs) + 2))
+	used := map[string]bool{}
+	vid := 0
+	n := 30 + r.Intn(41)
+	for f := 0; f < n; f++ {
+		k := c.Keys[r.Intn(len(c.Keys))]
+		var es []LMEnt
+		for j := 0; j < 1+r.Intn(2); j++ {
+			ts := uint64(1 + r.Intn(int(c.MaxTs)))
+			id := fmt.Sprintf("%s@%d", k, ts)
+			if used[id] {
+				continue
+			}
+			used[id] = true
+			vid++
+			e := LMEnt{Key: k, Ts: ts, Val: fmt.Sprintf("v%d", vid), Tomb: r.Intn(5) == 0}
+			if e.Tomb {
+				e.Val = ""
+			}
+			es = append(es, e)
+		}
+		if len(es) == 0 {
+			continue
+		}
+		sort.Slice(es, func(i, j int) bool {
+			return types.CompareKeys(types.KeyWithTs(es[i].Key, es[i].Ts), types.KeyWithTs(es[j].Key, es[j].Ts)) < 0
+		})
+		c.Actions = append(c.Actions, LMAction{K: "flush", Flush: es}, LMAction{K: "compact"})
+		if r.Intn(9) == 0 {
+			c.Actions = append(c.Actions, LMAction{K: "recover"})
+		}
+	}
+	c.Actions = append(c.Actions, LMAction{K: "recover"}, LMAction{K: "compact"})
+	return c
+}
+
 func GenLM(seed uint64) *LMCase {
 	r := simrt.NewSplitMix(seed*0x9e3779b97f4a7c15 + 0x910)
+	if r.Intn(8) == 0 {
+		return genLMDeep(seed, &r)
+	}
 	c := &LMCase{Seed: seed, L0: []int{1, 2, 4}[r.Intn(3)], Ratio: []int{1, 2, 3, 10}[r.Intn(4)], Block: []int{1, 16, 64, 4096}[r.Intn(4)]}
 	nk := 2 + r.Intn(7)
 	c.Keys = append([]string{"a", "a!"}, lmKeys[2:nk]...)
@@ -246,7 +296,9 @@ func RunLM(t *testing.T, c *LMCase, prop string, trace bool) *work.RunOut {
 				lm = n
 				ro.Probes["handles_rebuilt"]++
 			}
-			checkLookups(stage)
+			if !c.Deep || ai%8 == 7 || ai == len(c.Actions)-1 {
+				checkLookups(stage)
+			}
 		}
 		// everything flushed is still answered correctly at or above the watermark
 		all := []originium.VerifTable{{Entries: flushed}}
@@ -262,6 +314,15 @@ func RunLM(t *testing.T, c *LMCase, prop string, trace bool) *work.RunOut {
 		}
 		nt := len(tabs)
 		ro.Probes["tables_at_end"] += nt
+		for _, tb := range tabs {
+			if tb.Idx >= 10 {
+				ro.Probes["two_digit_table_index"]++
+				break
+			}
+		}
+		if c.Deep {
+			ro.Probes["deep_runs"]++
+		}
 	})
 	if s.Abort != "" {
 		add("fatal", "panic", s.Abort)
